@@ -4,6 +4,10 @@ from vlib import faclog
 CONSTANT = 42
 
 
+class Settings(dict):
+    """A settings object derived from a builtin type (no introspectable signature)."""
+
+
 def make(*args, **kwargs):
     return faclog.call("vfact.make", args, kwargs)
 
